@@ -106,7 +106,9 @@ impl SemanticState {
                     if let ("address", [grammar::Expr::IntLiteral(addr)]) =
                         (ident.as_str(), &exprs[..])
                     {
-                        address = Some(*addr as usize);
+                        address = Some((*addr).try_into().with_context(|| {
+                            format!("failed to convert `address` attribute into usize for extern value `{name}` in module `{path}`")
+                        })?);
                     }
                 }
 
